@@ -26,7 +26,7 @@ def CtxMode.ident : CtxMode → List String
 
 /-- the parameter identifiers a method body mentions -/
 def Plan.idents (pl : Plan) : List String :=
-  pl.subs.map (·.param) ++ pl.queryOps.map (fun op => op.expr.root) ++ pl.dict.toList ++ pl.body.toList ++ pl.ctx.ident
+  pl.subs.map (·.param) ++ pl.queryOps.map (fun op => op.expr.root) ++ pl.dict ++ pl.body.toList ++ pl.ctx.ident
 
 theorem lastNamed_mem (q : Param → Bool) (ps : List Param) :
     ∀ (d : Option String) (x : String), lastNamed q d ps = some x → d = some x ∨ x ∈ ps.map (·.name) := by
@@ -56,11 +56,13 @@ theorem specParamOps_root (m : MethodSpec) (p : Param) : ∀ op ∈ specParamOps
   | struct fs =>
     simp only [hk, List.mem_map] at hop
     obtain ⟨f, _, rfl⟩ := hop; rfl
-  | structElsewhere fs =>
-    simp only [hk, List.mem_map] at hop
-    obtain ⟨f, _, rfl⟩ := hop; rfl
   | ctx => simp [hk] at hop
-  | qualOther => simp [hk] at hop
+  | qualOther =>
+    simp only [hk] at hop
+    by_cases hp : isPathParam m p.name = true
+    · simp [hp] at hop
+    · simp only [hp, Bool.false_eq_true, ↓reduceIte, List.mem_singleton] at hop
+      rw [hop]; rfl
   | dict => simp [hk] at hop
   | unsupported => simp [hk] at hop
 
@@ -71,7 +73,7 @@ theorem rest_closed (hs : List (String × String)) (m : MethodSpec)
     ∀ x ∈ (planOf hs m.name c d subs).idents, x ∈ m.params.map (·.name) := by
   obtain ⟨hd, hsub, hcook⟩ := cookedFor_unpack m c d subs h
   obtain ⟨hdict, hctx, hbody, _⟩ := cookParams_slots _ _ _ _ _ hcook
-  have hq := queryOps_eq m c ok.names ok.fields ok.fieldKeys ok.aliasKeys ok.aliasVals ok.noElsewhere hcook
+  have hq := queryOps_eq m c ok.names ok.fields ok.fieldKeys ok.aliasKeys ok.aliasVals hcook
   intro x hx
   simp only [Plan.idents, planOf, List.mem_append, List.mem_map] at hx
   rcases hx with (((hx | hx) | hx) | hx) | hx
@@ -94,11 +96,11 @@ theorem rest_closed (hs : List (String × String)) (m : MethodSpec)
       exact List.mem_map.2 ⟨p, hp, rfl⟩
   · by_cases hv : d.verb.hasBody = true
     · simp [hv] at hx
-    · simp only [hv, Bool.false_eq_true, ↓reduceIte, Option.mem_toList] at hx
+    · simp only [hv, Bool.false_eq_true, ↓reduceIte] at hx
       rw [hdict] at hx
-      rcases lastNamed_mem _ _ _ _ hx with h' | h'
-      · cases h'
-      · exact h'
+      simp only [List.nil_append, List.mem_map, List.mem_filter] at hx
+      obtain ⟨p, ⟨hp, _⟩, rfl⟩ := hx
+      exact List.mem_map.2 ⟨p, hp, rfl⟩
   · simp only [Option.mem_toList] at hx
     rw [hbody] at hx
     rcases lastNamed_mem _ _ _ _ hx with h' | h'
